@@ -26,6 +26,7 @@ func runC03Gaps2(c *eng.Ctx) {
 	c03gParser(c)
 	c03gStoreACL(c)
 	c03gCapabilities(c)
+	c03gRequestContext(c)
 	c03gListFilter(c)
 	c03gCloneOwnership(c, "C03.6")
 }
@@ -792,6 +793,41 @@ func c03gCapabilities(c *eng.Ctx) {
 	c.Cut(f, "policyStore.ACL (capabilities)", sinks, eng.GCallOK(f, `vault\.\(\*Core\)\.fetchEntityAndDerivedPolicies$`), nil)
 	c.Cut(f, "policyStore.ACL (capabilities)", sinks, eng.Or(eng.G(f, ent+` == nil$`, true), eng.G(f, ent+`\.Disabled$`, false)), nil)
 	c.Cut(f, "policyStore.ACL (capabilities)", sinks, eng.Or(eng.G(f, `^`+te+`\.EntityID == ""$`, true), eng.G(f, ent+` == nil$`, false)), nil)
+}
+
+// c03gRequestContext (C03.15): the capability report and the enforcement resolve
+// the queried path in the same namespace — the one of the request. The ACL is
+// BUILT in the token's namespace (checked above), but the context handed on to
+// the decision (ACL.Capabilities → AllowOperation on the reporting side,
+// CheckToken → performPolicyChecks → AllowOperation on the enforcing side) is,
+// at every hop, the function's own ctx parameter.
+func c03gRequestContext(c *eng.Ctx) {
+	c.Clause("R5", "C03.15")
+	for _, hop := range []struct{ fn, callee, what string }{
+		{"vault.(*Core).Capabilities", `policy\.\(\*ACL\)\.Capabilities$`, "report: context in which sys/capabilities resolves the path"},
+		{"policy.(*ACL).Capabilities", `policy\.\(\*ACL\)\.AllowOperation$`, "report: context ACL.Capabilities hands to AllowOperation"},
+		{"vault.(*Core).CheckToken", `vault\.\(\*Core\)\.performPolicyChecks$`, "enforcement: context CheckToken hands to the policy check"},
+		{"vault.(*Core).performPolicyChecks", `policy\.\(\*ACL\)\.AllowOperation$`, "enforcement: context the policy check hands to AllowOperation"},
+	} {
+		f := c.Fn(hop.fn)
+		if f == nil {
+			continue
+		}
+		effs := gcEffs(f, hop.callee)
+		if len(effs) == 0 {
+			c.Undecided(f, "prov{"+hop.what+"}", f.Pos(), "no call matching "+hop.callee+" in "+hop.fn+" (directly, through a method value, a closure or a same-package helper): moved? the rule cannot be evaluated")
+			continue
+		}
+		for _, e := range effs {
+			a := gcArgs(e)
+			if len(a) < 2 {
+				c.Undecided(f, "prov{"+hop.what+"}", e.Call.In.Pos(), "unexpected argument list")
+				continue
+			}
+			// a[0] is the receiver, a[1] the context
+			gcProv(c, f, hop.what, e.Call.In, a[1], e.Fr, `^param:ctx$`)
+		}
+	}
 }
 
 func c03gTupleCall(v ssa.Value) (*ssa.Call, bool) {
